@@ -1066,8 +1066,15 @@ impl Vm {
         let offset = self.read_short();
         let stop_iter_class = self.class_store.stop_iter_class();
         if let Some(instance) = self.peek(0).try_as_obj_instance() {
-            if instance.borrow().class == stop_iter_class {
-                self.ip = unsafe { self.ip.offset(offset as isize) };
+            // Like `derives(StopIter)`, which is what the iterator adapters of the core library
+            // test: an instance of a class derived from StopIter ends the loop as well.
+            let mut class = Some(instance.borrow().class);
+            while let Some(current) = class {
+                if current == stop_iter_class {
+                    self.ip = unsafe { self.ip.offset(offset as isize) };
+                    break;
+                }
+                class = current.superclass;
             }
         }
     }
